@@ -35,7 +35,7 @@ CASES = {"quick": 3000, "thorough": 60000}
 MIN_CASES = {"quick": 800, "thorough": 15000}
 PRODUCERS = ["die", "allocation", "netgen", "floorset", "rect_get_netlist", "rect_solution", "legaliser", "netlist_writer"]
 REQUIRED_CLASSES = PRODUCERS
-REQUIRED_COUNTERS = ["reread_compared:" + p for p in PRODUCERS] + ["twice_compared:" + p for p in PRODUCERS] + ["source_unchanged_checked:" + p for p in PRODUCERS]
+REQUIRED_COUNTERS = ["failed_writes_provoked_earlier"] + ["reread_compared:" + p for p in PRODUCERS] + ["twice_compared:" + p for p in PRODUCERS] + ["source_unchanged_checked:" + p for p in PRODUCERS]
 SOFT_DEADLINE = {"quick": 240, "thorough": 3300}
 TOPOLOGIES = ["grid", "chain", "ring", "star", "ring-star", "one-net", "htree"]
 
@@ -630,6 +630,23 @@ def check_netlist_writer(case, ctx):
         ctx.violation("netlist_writer:reread_differs", f"{dmsg} :: doc={case['doc']}")
 
 
+_failed_write_done = [0]
+
+
+def provoke_failed_write(ctx):
+    """a write that fails (unwritable path / undumpable value) earlier in the process: later documents must be unaffected"""
+    from frame.utils.utils import write_yaml
+    for bad in (lambda: write_yaml({"width": 1, "height": 2}, "/nonexistent_dir_fv/x.yaml"), lambda: write_yaml({"k": object()})):
+        try:
+            bad()
+        except Exception:  # noqa
+            pass
+    ctx.count("failed_writes_provoked_earlier")
+
+
 def check(case, ctx):
+    _failed_write_done[0] += 1
+    if _failed_write_done[0] % 7 == 3:
+        provoke_failed_write(ctx)
     {"netlist_writer": check_netlist_writer, "die": check_die, "allocation": check_allocation, "netgen": check_netgen, "floorset": check_floorset, "rect_get_netlist": check_rect_get_netlist,
      "rect_solution": check_rect_solution, "legaliser": check_legaliser}[case["cls"]](case, ctx)
